@@ -14,7 +14,7 @@ From Coq Require Import ZArith List Bool Lia.
 From Hts Require Import Base.Prim Generated Model.Index Model.Tabix Model.Csi Model.IndexSpec Model.TabixSpec
   Model.IndexIO Proofs.Index Proofs.TabixIdx Proofs.CsiIdx Proofs.TabixLift Proofs.CsiLift
   Proofs.IndexSort Proofs.IndexPremises Proofs.CsiPremise Proofs.IndexIOFull Proofs.IndexFinal Proofs.TabixIO
-  Proofs.CsiIO Proofs.IndexFinal2.
+  Proofs.CsiIO Proofs.IndexFinal2 Proofs.IndexHist.
 Open Scope Z_scope.
 
 (** "Adding records in sorted order never fails or panics."  The hypotheses
@@ -109,6 +109,36 @@ Theorem bai_complete_public :
 Proof. exact bai_complete_public_gen. Qed.
 Print Assumptions bai_complete_public.
 
+(** Interleaved histories ([hist rs ix]: starting from the empty index, any
+    sequence of successful Add, sort (= WriteIndex) and Chunks calls, [rs] being
+    the records added so far in order).  In EVERY state of such a history:
+    the next record of a well-formed list is accepted (no error, no panic),
+    every query covers every overlapping record added so far, and so does the
+    index after a covering MergeChunks.  The IsSorted flag is part of the
+    state: Add clears it exactly where the code does (new bin, new tiles) and
+    Chunks bisects the bin list as coded. *)
+Theorem bai_complete_history :
+  forall rs ix, hist rs ix ->
+    (forall r, ix_wf (rs ++ [r]) -> exists ix', ix_add ix r = Ok ix') /\
+    (ix_wf rs -> ix_bins_ok rs ->
+     forall s, ix_strategy_covers s ->
+     forall rid beg end_ r, 0 <= beg < end_ -> end_ <= 2 ^ 29 ->
+       In r rs -> ix_overlaps r rid beg end_ ->
+       (exists cs, fst (ix_chunks ix rid beg end_) = Ok cs /\ ix_covers cs r) /\
+       (exists cs, fst (ix_chunks (ix_merge s ix) rid beg end_) = Ok cs /\ ix_covers cs r)).
+Proof. exact (fun rs ix H => conj (fun r W => hist_add_total rs ix r H W) (hist_complete rs ix H)). Qed.
+Print Assumptions bai_complete_history.
+
+(** The query validation of Chunks (merged main): a negative begin or an end
+    before the begin is ErrInvalid and leaves the index untouched; an end
+    beyond 2^29 is cut back. *)
+Theorem bai_query_validation :
+  forall ix rid beg end_, 0 <= rid < zlen (irefs ix) ->
+    ((beg < 0 \/ end_ < beg) -> ix_chunks ix rid beg end_ = (Err 2, ix)) /\
+    (0 <= beg <= 2 ^ 29 -> 2 ^ 29 <= end_ -> ix_chunks ix rid beg end_ = ix_chunks ix rid beg (2 ^ 29)).
+Proof. exact bai_query_validation_gen. Qed.
+Print Assumptions bai_query_validation.
+
 (** After WriteIndex and ReadIndex (byte level): the bytes written for the
     built index are read back as [bai_reread ix], which still covers every
     overlapping record.  [idx_ranges]: offsets and counters fit their fields. *)
@@ -170,7 +200,7 @@ Theorem csi_complete :
          ix_covers (fst (cs_chunks ix rid beg end_)) r) /\
       (fst (cs_chunks ix rid beg end_) = [] -> forall r, In r rs -> ~ ix_overlaps r rid beg end_).
 Proof.
-  exact (fun ms dp H1 H2 H3 => csi_complete_gen ms dp (csi_bin_containment_holds ms dp H1 H2 H3)).
+  exact (fun ms dp H1 H2 H3 => csi_complete_gen ms dp (csi_bin_containment_holds ms dp H1 H2 H3) (csi_geo_ok ms dp H1 H2 H3)).
 Qed.
 Print Assumptions csi_complete.
 
@@ -183,7 +213,7 @@ Theorem csi_complete_merged :
     In r rs -> ix_overlaps r rid beg end_ ->
     ix_covers (fst (cs_chunks ix rid beg end_)) r.
 Proof.
-  exact (fun ms dp H1 H2 H3 => csi_complete_reach_gen ms dp (csi_bin_containment_holds ms dp H1 H2 H3)).
+  exact (fun ms dp H1 H2 H3 => csi_complete_reach_gen ms dp (csi_bin_containment_holds ms dp H1 H2 H3) (csi_geo_ok ms dp H1 H2 H3)).
 Qed.
 Print Assumptions csi_complete_merged.
 
